@@ -36,7 +36,7 @@ fn rx_sock_cfg() -> BoxedStrategy<SockCfg> {
 }
 
 pub fn strategy(g: RxGen) -> BoxedStrategy<SpCase> {
-    (rx_sock_cfg(), any::<bool>(), prop_oneof![3 => any::<u16>(), 1 => (65000u32..65536).prop_map(|x| x as u16)], any::<u16>(), any::<u64>(), 0u8..4)
+    (rx_sock_cfg(), any::<bool>(), prop_oneof![3 => any::<u16>(), 1 => (65490u32..65536).prop_map(|x| x as u16)], any::<u16>(), any::<u64>(), 0u8..4)
         .prop_flat_map(move |(sock, incoming, peer_isn, conn_id, key, reader_kind)| {
             let maxp = sock.max_payload().max(1) as u16;
             let minp = sock.min_payload().max(1) as u16;
